@@ -17,7 +17,7 @@ import traceback
 ROOT = os.path.dirname(os.path.dirname(os.path.abspath(__file__)))
 REPO = os.environ.get('PYVC_REPO', '/repo')
 
-CONTRACT_MODULES = ['assets_contract', 'assets_storage', 'assets_transport', 'assets_orderbook', 'assets_report', 'basic_grid', 'portfolio_asm', 'optimize', 'chp_helpers', 'assets_scaled', 'grid_values']
+CONTRACT_MODULES = ['assets_contract', 'assets_storage', 'assets_transport', 'assets_orderbook', 'assets_report', 'basic_grid', 'portfolio_asm', 'optimize', 'chp_helpers', 'assets_scaled', 'grid_values', 'nodal_restr']
 
 
 def load_contracts():
@@ -55,6 +55,32 @@ def _case_job(job):
         deadline = time.time() + budget
         failing = [k for k, ob in enumerate(obs) if ob.verdict != 'DISCHARGED']
         failing.sort(key=lambda k: (obs[k].kind != 'post', k))
+        # stage 1b: cheap random small real instances (decides most genuinely false obligations at once)
+        if failing and hasattr(c, 'native'):
+            try:
+                for P, nat in refute.random_natives(c, case, n=int(os.environ.get('PYVC_RANDOM_REFUTE', '120')), seed=1):
+                    cache.append((P, nat, 'random'))
+            except Exception:
+                pass
+            for k in list(failing):
+                ob = obs[k]
+                for (P0, nat0, b0) in cache:
+                    hit, fl = refute.is_hit(ob.name, ob.kind, nat0, strict=not getattr(ob, 'hyps_smt2', None))
+                    if hit:
+                        refuted[k] = dict(status='reproduced', params=P0, native=nat0, bound=b0, failing=fl, note='random small instance')
+                        failing.remove(k)
+                        break
+        # stage 1c: the complete quantified query (z3 / cvc5 command line, short limits) before the expensive
+        # bounded-expansion model search: obligations that only need model-based instantiation end here
+        for k in list(failing):
+            ob = obs[k]
+            if not getattr(ob, 'hyps_smt2', None) or getattr(ob, 'havoc_syms', None):
+                continue
+            if deadline - time.time() < 30:
+                break
+            engine.discharge(obs, both=True, procs=1, only={k}, z3_ms=12000, cvc5_ms=8000)
+            if ob.verdict == 'DISCHARGED':
+                failing.remove(k)
         for k in failing:
             ob = obs[k]
             if not getattr(ob, 'hyps_smt2', None) or getattr(ob, 'havoc_syms', None):
